@@ -5,3 +5,6 @@
 (declare-fun interleave (Int Int) Int)
 (declare-fun even_bits (Int) Int)
 (define-fun fits32 ((x Int)) Bool (and (<= 0 x) (<= x 4294967295)))
+; both are functions into 64-bit words
+(assert (forall ((x Int)) (! (and (<= 0 (even_bits x)) (<= (even_bits x) 18446744073709551615)) :pattern ((even_bits x)))))
+(assert (forall ((x Int) (y Int)) (! (and (<= 0 (interleave x y)) (<= (interleave x y) 18446744073709551615)) :pattern ((interleave x y)))))
